@@ -94,6 +94,11 @@ func VerifVec(name string, pure bool, z, x, y []Word, s, r Word) Word {
 			return div10VWW_g(z, x, s, r)
 		}
 		return div10VWW(z, x, s, r)
+	case "divWVW": // the binary kernel used by dec.setNat: z = (r:x) / s on 64-bit words
+		if pure {
+			return divWVW_g(z, r, x, s)
+		}
+		return divWVW(z, r, x, s)
 	}
 	panic("VerifVec: unknown kernel " + name)
 }
